@@ -1,7 +1,7 @@
 """C20 - numeric and utility helpers over the whole value range (DESIGN.md section 7-C20)."""
 from ..core import *
 
-CLAUSES = ["I_NoPanic", "I_MinMax", "I_SumProd", "I_Compare", "I_ClampRank", "I_Table", "I_Point", "I_Util"]
+CLAUSES = ["I_NoPanic", "I_FloatSum", "I_MinMax", "I_SumProd", "I_Compare", "I_ClampRank", "I_Table", "I_Point", "I_Util"]
 FNS1 = ["Digits10", "DigitsSign10", "Abs", "Clamp01"]
 
 
@@ -81,6 +81,14 @@ def check(run):
             tr = run.rng.sample(tr, 300 if n > 5 else 125)
         for a, b, c in tr:
             plan.append(dict(op="rank", ty=ty, a=a, b=b, c=c))
+    # floating / complex Sum and Product: argument lists of every length 0..8 over values whose sums round, cancel or overflow
+    for ty in ("float64", "float32", "complex128"):
+        for n in range(0, 3):
+            import itertools
+            for v in itertools.product(range(14), repeat=n):
+                plan.append(dict(op="fsum", ty=ty, v=list(v)))
+        for _ in range(150 if q else 3000):
+            plan.append(dict(op="fsum", ty=ty, v=[run.rng.randrange(14) for _ in range(run.rng.randint(3, 9))]))
     # (vi) language-level helpers
     U = lambda name, kind="", v=(), cond=False: dict(op="util", name=name, kind=kind, v=list(v), cond=cond)
     for v in ([], [0], [0, 0], [3], [0, 3], [0, 0, 4, 5], [6, 0, 7], [0, 8, 0]):
@@ -105,7 +113,8 @@ def check(run):
     small = [e for e in evs if e["op"] == "table" and e["fn"] == "Digits10" and e["ty"] == "int16"]
     run.cov["samples"] = [evs[300], small[0] if small else evs[-1]]
     run.assumptions += ["the run builder (harness/cmd/driver/num.go, runB) is lossless: trusted, 40 lines",
-                        "floats only through exactly representable order-embedded samples; NaN excluded as in the property",
+                        "floats: order-based helpers through exactly representable order-embedded samples; Sum/Product against the left-to-right fold with "
+                        "the built-in operators (bit-identical), NaN excluded as in the property",
                         "decimal formatting of 64-bit values by strconv is the trace encoding"]
     # re-execution of a single rejected line: the line's own plan is not tracked (plans expand), so re-run everything once
     def reexec(rej):
